@@ -12,8 +12,12 @@ def num_record(q, val):
     if t not in ("I", "L", "S", "D"):
         return None
     whole = "v" in val
+    if t in ("I", "L"):
+        sx = abs(val.get("v", 0)) <= 16777216 if whole else False
+    else:
+        sx = bool(val.get("sx", True))
     return {"q": q, "tag": t, "whole": whole, "finite": val.get("finite", True) if not whole else True,
-            "fits32": whole, "v": val.get("v", 0) if whole else 0, "f": val.get("f", "")}
+            "fits32": whole, "v": val.get("v", 0) if whole else 0, "f": val.get("f", ""), "sx": sx}
 
 
 def records_of_case(c):
@@ -35,10 +39,10 @@ def records_of_case(c):
                 if r is None:
                     # a non-numeric value in a numeric variable
                     if x.get("t") in ("$", "U"):
-                        r = {"q": q, "tag": x.get("t"), "whole": False, "finite": False, "fits32": False, "v": 0, "f": "non-numeric"}
+                        r = {"q": q, "tag": x.get("t"), "whole": False, "finite": False, "fits32": False, "v": 0, "f": "non-numeric", "sx": False}
                     else:
                         continue
-                key = (r["q"], r["tag"], r["whole"], r["finite"], r["v"], r["f"] if not r["whole"] else "")
+                key = (r["q"], r["tag"], r["whole"], r["finite"], r["v"], r["f"] if not r["whole"] else "", r["sx"])
                 out.setdefault(key, (r, m.group(1)))
     return out
 
